@@ -440,7 +440,7 @@ def run_case(case, obs):
             for i_, (a, b_) in enumerate(zip(ra, rb)):
                 a = np.asarray(a.transpose(*b_.dims).values)
                 b_ = np.asarray(b_.values)
-                obs.close(f"dask_vs_numpy:rotation_invariant_reconstruction[{i_}]", a, b_, max(tol_eq, 1e-6), scale=float(np.abs(b_).max()), tags=dict(tags, entry="reconstruction", symptom="dask_ne_numpy"))
+                obs.close(f"dask_vs_numpy:rotation_invariant_reconstruction[{i_}]", a, b_, max(tol_eq, 1e-6), scale=float(np.nanmax(np.abs(b_))), tags=dict(tags, entry="reconstruction", symptom="dask_ne_numpy"))
         else:
             _compare(obs, "dask_vs_numpy", got, ref, tol_eq, tags, cls=cls)
             _behaviour(obs, case, cls, m, ref_m, Xd, Yd, X, Y, tol_eq, tags)
